@@ -70,3 +70,27 @@ def exec (b : MBox) (v : View) (ro : Bool) (permitted : List Nat) : MCmd → MBo
   | .check => (b, .ok)
 
 end Pymap.Session
+
+namespace Pymap.Session
+open Pymap.Sync Pymap.Mailbox Pymap.Seq
+
+/-- the messages a COPY/MOVE addresses, in view order, as far as they still exist (`mbx.copy` returns `None` otherwise) -/
+def sourceMsgs (src : MBox) (v : View) (byUid : Bool) (set : List Elem) : List Msg :=
+  ((targets v byUid set).map (·.2)).filterMap src.find
+
+/-- destination half of COPY/MOVE: one `push` per message, in order; returns the new mailbox and the assigned uids -/
+def copyInto (dst : MBox) (recent : Bool) : List Msg → MBox × List Nat
+  | [] => (dst, [])
+  | m :: ms =>
+    let r := push dst m.flags recent m.cid m.date
+    let rest := copyInto r.1 recent ms
+    (rest.1, r.2 :: rest.2)
+
+/-- `copy_messages` into another mailbox -/
+def copyCmd (src dst : MBox) (v : View) (byUid : Bool) (set : List Elem) (recent : Bool) : MBox × List Nat :=
+  copyInto dst recent (sourceMsgs src v byUid set)
+
+/-- source half of MOVE: the moved messages are popped one by one -/
+def moveSrc (src : MBox) (us : List Nat) : MBox := us.foldl (fun b u => (pop b u).1) src
+
+end Pymap.Session
